@@ -47,6 +47,8 @@ def random_histories(ctx, b):
         wd = ctx.sub("rh%d" % t)
         fam = M.rand_family(rng, nsrc=rng.choice([2, 3, 5, 8]), nkeys=rng.choice([10, 40, 120]), alpha=rng.choice([list(range(256)), gen.ALPHA6]), maxlen=4)
         merge, dupsort = rng.choice(M.MODES)
+        if dupsort:
+            fam = M.shuffle_tokens(fam, rng)
         variant = rng.choice(["readers", "user", "nested", "mixed"])
         keys = sorted(set(k for src in fam for k, _ in src)) or [b"a"]
         cand = sorted(set(k2 for k in keys for k2 in shapes.neighbours(k)) | {b""})
@@ -89,6 +91,37 @@ def random_histories(ctx, b):
                         {"kind": "trace", "trace": ex, "line": line, "merge": merge, "dupsort": dupsort, "variant": variant})
 
 
+def dupsort_lookups(ctx, b):
+    """dupsort mergers (no merge function): for every key, a fresh iterator of each kind is drained - equal keys must come in
+    dupsort order whichever source holds the smallest value, whatever the constructor; plus the same after a seek"""
+    rng = ctx.rng
+    allrecs = []
+    for t in range(30 if ctx.quick() else 400):
+        wd = ctx.sub("ds")
+        fam = M.rand_family(rng, nsrc=rng.choice([2, 3, 4, 6]), nkeys=rng.choice([3, 5, 8]), tokbase=1)
+        fam = M.shuffle_tokens(fam, rng)
+        if rng.random() < 0.4:
+            fam = M.prefix_related_values(fam, rng)
+        variant = rng.choice(["readers", "user", "user", "nested", "mixed"])
+        merge = 1 if t % 5 == 4 else 0
+        L = M.setup_lines(wd, fam, variant, merge, 1)
+        keys = sorted(set(k for src in fam for k, _ in src))
+        for k in keys:
+            for bd in (("get", k, b""), ("prefix", k, b""), ("range", k, k), ("prefix", k[:1], b"")):
+                L += [gen.open_line(1, "m:0", bd), "it_drain 1", "it_destroy 1"]
+            L += [gen.open_line(1, "m:0", ("get", k, b"")), "it_next 1", "it_seek 1 %s" % shapes.hexs(k), "it_drain 1", "it_destroy 1"]
+        L += M.teardown_lines(fam, variant)
+        recs, rc, err = M.run_script(ctx, b, wd, L, "ds")
+        ctx.add("dupsort_families", 1)
+        if rc != 0:
+            core.report(ctx, "driver ended abnormally (rc=%s): %s" % (rc, err[-1500:]), {"kind": "script", "script": L[:200], "stderr": err[-3000:]})
+            continue
+        allrecs += recs
+    for ex, line in core.validate_batch(ctx, allrecs, "ds"):
+        core.report(ctx, "dupsort merger lookup not explained by the merged table at trace line %d: %s" % (line, json.dumps(ex[line - 1])[:300]),
+                    {"kind": "trace", "trace": ex, "line": line})
+
+
 def regressions(ctx):
     rng = ctx.rng
     wd = ctx.sub("regr")
@@ -109,10 +142,13 @@ def run(ctx):
     for n in range(nfam):
         fam = M.rand_family(rng, tokbase=1 + 100 * n)
         merge, dupsort = M.MODES[n % 4]
+        if dupsort:
+            fam = M.shuffle_tokens(fam, rng)
         if dupsort and not merge:
             fam = M.prefix_related_values(fam, rng)
         graph_family(ctx, b, n, fam, merge, dupsort, variants[(n // 4) % 4] if n >= 4 else "readers")
     regressions(ctx)
+    dupsort_lookups(ctx, b)
     random_histories(ctx, b)
     cov = {"states": ctx.cov.get("states", 0), "transitions": ctx.cov.get("transitions", 0),
            "traces_validated_against_impl": ctx.cov.get("traces_validated_against_impl", 0),
